@@ -14,6 +14,8 @@ pub struct Task {
     pub tid: u64,
     pub state: char,
     pub ticks: u64,
+    /// context switches so far (voluntary + involuntary): every wake-up of a sleeping task is one
+    pub switches: u64,
 }
 
 pub fn reloader_tasks() -> Vec<Task> {
@@ -30,7 +32,14 @@ pub fn reloader_tasks() -> Vec<Task> {
             if let Some(close) = stat.rfind(')') {
                 let f: Vec<&str> = stat[close + 2..].split_whitespace().collect();
                 if f.len() > 13 {
+                    let status = std::fs::read_to_string(p.join("status")).unwrap_or_default();
+                    let switches: u64 = status
+                        .lines()
+                        .filter(|l| l.starts_with("voluntary_ctxt_switches") || l.starts_with("nonvoluntary_ctxt_switches"))
+                        .filter_map(|l| l.split_whitespace().last().and_then(|x| x.parse::<u64>().ok()))
+                        .sum();
                     v.push(Task {
+                        switches,
                         tid: e.file_name().to_string_lossy().parse().unwrap_or(0),
                         state: f[0].chars().next().unwrap_or('?'),
                         ticks: f[11].parse::<u64>().unwrap_or(0) + f[12].parse::<u64>().unwrap_or(0),
@@ -56,6 +65,21 @@ pub fn sample(window_ms: u64) -> (usize, u64, String) {
         }
     }
     (after.len(), max, states)
+}
+
+/// the most wake-ups (context switches) one live reloader task went through over the window: a task
+/// that blocks until there is something to do has none, a poller has one per period
+pub fn sample_wakeups(window_ms: u64) -> u64 {
+    let before = reloader_tasks();
+    std::thread::sleep(Duration::from_millis(window_ms));
+    let after = reloader_tasks();
+    let mut max = 0;
+    for t in &after {
+        if let Some(b) = before.iter().find(|b| b.tid == t.tid) {
+            max = max.max(t.switches.saturating_sub(b.switches));
+        }
+    }
+    max
 }
 
 #[derive(Clone, Copy, Debug)]
@@ -152,6 +176,13 @@ pub fn run(a: &Args) {
         samples.push(format!("{{\"kind\": \"idle live caches (Mem + FileSystem)\", \"reloader_tasks\": {n2}, \"max_ticks_in_window\": {ticks2}, \"states\": {}}}", jstr(&states2)));
         if ticks2 > 1 {
             violations.push(("reloader-busy-while-idle".into(), format!("idle caches: {n2} reloader tasks, {ticks2} ticks in {window} ms, states {states2}")));
+        }
+        // ... and must not be woken at all: blocked, not polling with a period too long to show as CPU
+        let wake = sample_wakeups(window);
+        evals += 1;
+        samples.push(format!("{{\"kind\": \"idle live caches (Mem + FileSystem): wake-ups\", \"max_context_switches_in_window\": {wake}}}"));
+        if wake > 3 {
+            violations.push(("reloader-busy-while-idle".into(), format!("idle caches: a reloader task was woken {wake} times in {window} ms although nothing happened (it polls instead of blocking)")));
         }
         drop(fcache);
         drop(cache);
@@ -414,6 +445,23 @@ pub fn run(a: &Args) {
                 }
             }
         }
+    }
+    // (3) last, because the leaked cache keeps its reloader for the rest of the process:
+    // the same for a cache that reloads eagerly ('static mode)
+    {
+        let smem = Mem::new(true);
+        smem.write("a", "x", b"1");
+        let scache: &'static AssetCache<Mem> = Box::leak(Box::new(AssetCache::with_source(smem.clone())));
+        let _ = scache.load::<TInt>("a");
+        scache.enhance_hot_reloading();
+        std::thread::sleep(Duration::from_millis(100));
+        let wake = sample_wakeups(window);
+        evals += 1;
+        samples.push(format!("{{\"kind\": \"idle live caches (one in 'static mode): wake-ups\", \"max_context_switches_in_window\": {wake}}}"));
+        if wake > 3 {
+            violations.push(("reloader-busy-while-idle".into(), format!("idle caches (one in 'static mode): a reloader task was woken {wake} times in {window} ms although nothing happened")));
+        }
+        std::mem::forget(smem);
     }
     let _ = std::fs::remove_dir_all(&tmp);
     if !violations.is_empty() {
